@@ -14,10 +14,13 @@ import ExoVerif.Model.EvmFee
             nonces of one sender are accepted).
     baseapp.runTx: runMsgs executes the messages in order in one cache; an error of any message drops the cache.
     x/evm/keeper/state_transition.go ApplyTransaction per message (intrinsic-gas error ⇒ the whole gas limit of the TX —
-      ctx.GasMeter().Limit() = sum of the limits — is consumed); ApplyMessageWithConfig's contract-creation branch
-          stateDB.SetNonce(sender, msg.Nonce()) ; evm.Create ; stateDB.SetNonce(sender, msg.Nonce()+1)
-      whose write reaches the store when the execution did not fail (statedb.Commit into tmpCtx, tmpCtx committed
-      only `if !res.Failed()` because k.hooks != nil).
+      ctx.GasMeter().Limit() = sum of the limits — is consumed); ApplyMessageWithConfig's contract-creation branch,
+      since the F-19d repair (e39c03d)
+          nonceBefore := stateDB.GetNonce(sender) ; stateDB.SetNonce(sender, msg.Nonce()) ; evm.Create ;
+          if nonceBefore < msg.Nonce()+1 { nonceBefore = msg.Nonce()+1 } ; stateDB.SetNonce(sender, nonceBefore)
+      (`createNonce`; before the repair: stateDB.SetNonce(sender, msg.Nonce()+1), kept as `createNoncePreFix` for the
+      regression theorem), whose write reaches the store when the execution did not fail (statedb.Commit into tmpCtx,
+      tmpCtx committed only `if !res.Failed()` because k.hooks != nil).
     x/evm/keeper/gas.go ResetGasMeterAndConsumeGas(ctx, totalGasUsed): the tx gas meter is reset to zero and charged
       the transient running total after every message.
 -/
@@ -71,19 +74,29 @@ def anteBatch (e : Env) (s : St) (ms : List Msg) : Option St :=
 /-- x/evm/keeper/gas.go ResetGasMeterAndConsumeGas: RefundGas(GasConsumed()) then ConsumeGas(gasUsed) -/
 def resetAndConsume (meter gasUsed : Int) : Int := (meter - meter) + gasUsed
 
-/-- runMsgs: the messages in order. Carries the tx gas meter and the transient running total of gas used.
-    `none` = a message returned an error (intrinsic gas). Result: state, meter, (failed, gas) per message. -/
-def execMsgs (e : Env) : St → Int → Int → List Msg → Option (St × Int × List (Bool × Int))
+/-- ApplyMessageWithConfig, contract creation (repaired, e39c03d): the nonce the sender is left with, given the nonce
+    found before the call (`stateDB.GetNonce`) and msg.Nonce() — never below what the ante handler has set -/
+def createNonce (nonceBefore msgNonce : Int) : Int :=
+  if nonceBefore < msgNonce + 1 then msgNonce + 1 else nonceBefore
+
+/-- the same branch BEFORE the F-19d repair: `stateDB.SetNonce(sender, msg.Nonce()+1)` whatever was found -/
+def createNoncePreFix (_nonceBefore msgNonce : Int) : Int := msgNonce + 1
+
+/-- runMsgs: the messages in order, for a given creation branch `cn`. Carries the tx gas meter and the transient
+    running total of gas used. `none` = a message returned an error (intrinsic gas).
+    Result: state, meter, (failed, gas) per message. -/
+def execMsgsWith (cn : Int → Int → Int) (e : Env) : St → Int → Int → List Msg → Option (St × Int × List (Bool × Int))
   | s, meter, _, [] => some (s, meter, [])
   | s, meter, tot, m :: r =>
     if m.t.gasLimit < m.t.intrinsic then none
     else
       let g := gasUsed e m.t m.x
       let s1 := afterExec e s m.t m.x g
-      -- ApplyMessageWithConfig, contract creation: SetNonce(msg.Nonce()) … SetNonce(msg.Nonce()+1), persisted unless failed
-      let s2 : St := if m.isCreate && !m.x.failed then { s1 with nonce := setAt s1.nonce m.t.sender (m.t.nonce + 1) } else s1
+      -- ApplyMessageWithConfig, contract creation: the nonce write is persisted unless the execution failed
+      let s2 : St := if m.isCreate && !m.x.failed
+        then { s1 with nonce := setAt s1.nonce m.t.sender (cn (s1.nonce m.t.sender) m.t.nonce) } else s1
       let tot' := tot + g                           -- AddTransientGasUsed
-      match execMsgs e s2 (resetAndConsume meter tot') tot' r with
+      match execMsgsWith cn e s2 (resetAndConsume meter tot') tot' r with
       | none => none
       | some (s', mt, l) => some (s', mt, (m.x.failed, g) :: l)
 
@@ -94,13 +107,15 @@ inductive BatchOutcome where
   | executed (failed : List Bool)
 deriving DecidableEq, Repr, Inhabited
 
-/-- one DeliverTx of a batch. Returns the new state, the outcome, the gas each message's sender is charged for and the
-    gas figure of the tx (ctx.GasMeter().GasConsumed(): reported as gas_used and added to the block gas meter). -/
-def deliverBatch (e : Env) (s : St) (ms : List Msg) (rejGas : Int) : St × BatchOutcome × List Int × Int :=
+/-- one DeliverTx of a batch, for a given creation branch. Returns the new state, the outcome, the gas each message's
+    sender is charged for and the gas figure of the tx (ctx.GasMeter().GasConsumed(): reported as gas_used and added to
+    the block gas meter). -/
+def deliverBatchWith (cn : Int → Int → Int) (e : Env) (s : St) (ms : List Msg) (rejGas : Int) :
+    St × BatchOutcome × List Int × Int :=
   match anteBatch e s ms with
   | none => ({ s with blockGas := s.blockGas + rejGas }, .rejected, [], rejGas)
   | some s1 =>
-    match execMsgs e s1 0 0 ms with
+    match execMsgsWith cn e s1 0 0 ms with
     | none =>
       -- ApplyTransaction error path: ResetGasMeterAndConsumeGas(ctx, ctx.GasMeter().Limit()); message cache dropped
       let lim := gasLimitSum ms
@@ -114,14 +129,17 @@ def deliverBatch (e : Env) (s : St) (ms : List Msg) (rejGas : Int) : St × Batch
       else
         ({ s2 with blockGas := total }, .executed (l.map (fun p => p.1)), l.map (fun p => p.2), meter)
 
+/-- the code as it is (creation branch of e39c03d) -/
+abbrev execMsgs (e : Env) := execMsgsWith createNonce e
+abbrev deliverBatch (e : Env) (s : St) (ms : List Msg) (rejGas : Int) := deliverBatchWith createNonce e s ms rejGas
+
+/-- the code before the F-19d repair -/
+abbrev deliverBatchPreFix (e : Env) (s : St) (ms : List Msg) (rejGas : Int) :=
+  deliverBatchWith createNoncePreFix e s ms rejGas
+
 /-- number of messages of the batch sent by account `a` -/
 def sentBy (a : Nat) : List Msg → Int
   | [] => 0
   | m :: r => (if m.t.sender = a then 1 else 0) + sentBy a r
-
-/-- no successful contract creation is followed by a later message of the same sender -/
-def createsLast : List Msg → Bool
-  | [] => true
-  | m :: r => (!(m.isCreate && !m.x.failed) || r.all (fun m' => m'.t.sender != m.t.sender)) && createsLast r
 
 end ExoVerif.EvmFee
